@@ -12,6 +12,7 @@ mod c10;
 mod c11;
 mod remote;
 mod c13;
+mod c19;
 mod backhalf;
 pub mod compile;
 
@@ -107,6 +108,7 @@ fn main() {
                 "C10" => c10::run(&tier, seed),
                 "C11" => c11::run(&tier, seed),
                 "C13" => c13::run(&tier, seed),
+                "C19" => c19::run(&tier, seed),
                 _ => {
                     eprintln!("unknown property {prop}");
                     2
